@@ -561,6 +561,10 @@ pub fn corpus() -> Vec<&'static str> {
     "for x in [1,2], x in [3,4] return x",
     "for i in 3..1 return i",
     "{f: function(a, b) external {java: {class: \"c\", method signature: \"m\"}}, r: 1}.r",
+    // invoking a function whose body is external: there is nothing to call, the value is null
+    "(function(x) external {java: {class: \"a\", method signature: \"b\"}})(1)",
+    "{f: function(x) external {java: {class: \"a\", method signature: \"b\"}}, r: f(2)}.r",
+    "{f: function() external {pmml: {document: \"d\", model: \"m\"}}, r: [f(), 1]}.r",
     "[function(a) external {java: {class: \"c\", method signature: \"m\"}}, 2][2]",
     "{f: function() external {pmml: {document: \"d\", model: \"m\"}}, g: function(x) x + 1, r: g(2)}.r",
     "lk[k2 - 1 > 0]",
